@@ -110,17 +110,11 @@ theorem init_rel (ty : Ty) (cap : Nat) (kind : Kind) : Rel (Sys.init ty cap kind
   intro i l h
   simp only [Spec.SSys.init, Sys.init] at h ⊢
   match i with
-  | 0 | 1 | 2 | 3 => simp at h ⊢; first | exact h | exact h.symm
+  | 0 | 1 | 2 | 3 => simp at h ⊢; exact h
   | n + 4 => simp at h
 
 example : valid (Sys.init .sv 4 .nt) 0 (.insertFill 0 3 7) = true := by decide
 example : valid ((Sys.init .sv 4 .nt).setObj 1 [1, 2, 3]) 1 (.swap 0) = true := by decide
-
-/-- the outputs of the model agree with those of the spec wherever the spec gives one -/
-def OutsAgree : List Out → List (Option Out) → Prop
-  | [], [] => True
-  | o :: os, so :: sos => (∀ o', so = some o' → o = o') ∧ OutsAgree os sos
-  | _, _ => False
 
 /-- **Histories.**  By induction over the operation list: a history all of whose steps are valid never
     makes the model fail, keeps the invariant and the capacity, and every result and every content
@@ -137,16 +131,16 @@ theorem history_refines : ∀ (ops : List (Nat × Op)) (s : Sys) (sp : Spec.SSys
   | cons kop rest ih =>
     intro s sp hinv hrel hv
     obtain ⟨k, op⟩ := kop
-    simp only [validRun, Bool.and_eq_true] at hv
+    simp only [validRun_cons, Bool.and_eq_true] at hv
     obtain ⟨hv1, hv2⟩ := hv
     obtain ⟨s1, o1, hstep, hinv1, hty1, hcap1, _, _, hrel1, hout1⟩ := step_refines s sp k op hinv hrel hv1
     rw [hstep] at hv2
     simp only at hv2
     obtain ⟨s2, outs, hrun, hinv2, hcap2, hty2, hrel2, hout2⟩ := ih s1 (Spec.step sp k op).1 hinv1 hrel1 hv2
     refine ⟨s2, o1 :: outs, ?_, hinv2, by rw [hcap2, hcap1], by rw [hty2, hty1], ?_, ?_⟩
-    · simp only [run, hstep, ok_bind, hrun]
-    · simpa only [Spec.run] using hrel2
-    · simp only [Spec.run, OutsAgree]
+    · simp only [run_cons, hstep, ok_bind, hrun]
+    · simpa only [specRun_cons] using hrel2
+    · simp only [specRun_cons, outsAgree_cons]
       exact ⟨hout1, hout2⟩
 
 /-- from the initial state (four empty objects) of any type, capacity and element kind -/
@@ -216,7 +210,7 @@ theorem copy_independent (s : Sys) (k j : Nat) (hinv : Inv s) (hv : valid s k (.
     by_cases ht : s.ty = .ipv
     · rw [if_pos ht] at hctor ⊢; rw [hctor]; rfl
     · rw [if_neg ht] at hctor ⊢; rw [hctor]; rfl
-  · simp [Sys.setObj, List.getElem?_set, hk, ho]
+  · simp [Sys.setObj, hk, ho]
   · intro i hi
     simp only [Sys.setObj, List.getElem?_set]
     rw [if_neg (fun e => hi e.symm)]
